@@ -77,6 +77,7 @@ pub enum Engine {
     MapEq,
     Wide,
     Fmt,
+    Slices,
 }
 
 impl Engine {
@@ -88,6 +89,7 @@ impl Engine {
             Engine::MapEq => "mapeq",
             Engine::Wide => "wide",
             Engine::Fmt => "fmt",
+            Engine::Slices => "slices",
         }
     }
     pub fn parse(s: &str) -> Option<Engine> {
@@ -98,6 +100,7 @@ impl Engine {
             "mapeq" => Engine::MapEq,
             "wide" => Engine::Wide,
             "fmt" => Engine::Fmt,
+            "slices" => Engine::Slices,
             _ => return None,
         })
     }
@@ -109,15 +112,17 @@ impl Engine {
             Engine::MapEq => 3,
             Engine::Wide => 4,
             Engine::Fmt => 5,
+            Engine::Slices => 6,
         }
     }
     pub fn from_code(c: u8) -> Engine {
-        match c % 6 {
+        match c % 7 {
             0 => Engine::MapHist,
             1 => Engine::SetHist,
             2 => Engine::SetAlg,
             3 => Engine::MapEq,
             4 => Engine::Wide,
+            6 => Engine::Slices,
             _ => Engine::Fmt,
         }
     }
